@@ -9,7 +9,6 @@ import (
 
 	"github.com/bronlabs/bron-crypto/pkg/base/algebra"
 	ds "github.com/bronlabs/bron-crypto/pkg/base/datastructures"
-	"github.com/bronlabs/bron-crypto/pkg/base/datastructures/bitset"
 	"github.com/bronlabs/bron-crypto/pkg/base/datastructures/hashset"
 	"github.com/bronlabs/bron-crypto/pkg/base/mat"
 	"github.com/bronlabs/bron-crypto/pkg/base/utils/sliceutils"
@@ -158,6 +157,24 @@ func normaliseCNF(unqualifiedSets ...ds.Set[ID]) ([]ds.Set[ID], error) {
 	return maximalSets, nil
 }
 
+// compareIDSets orders ID sets as if they were bitmasks (bit i-1 set for ID i)
+// compared as unsigned integers: the set with the larger greatest element is
+// greater, ties are broken by the next greatest element, and a set that runs
+// out of elements first is smaller. Unlike a 64-bit bitmask it is defined for
+// every ID, so shareholder IDs above 64 do not panic.
+func compareIDSets(a, b ds.Set[ID]) int {
+	as := a.List()
+	bs := b.List()
+	slices.SortFunc(as, func(x, y ID) int { return cmp.Compare(y, x) })
+	slices.SortFunc(bs, func(x, y ID) int { return cmp.Compare(y, x) })
+	for i := 0; i < len(as) && i < len(bs); i++ {
+		if c := cmp.Compare(as[i], bs[i]); c != 0 {
+			return c
+		}
+	}
+	return cmp.Compare(len(as), len(bs))
+}
+
 // InducedMSP constructs a monotone span programme from a CNF access
 // structure. Each clause yields one block of rows, one per clause member.
 func InducedMSP[E algebra.PrimeFieldElement[E]](f algebra.PrimeField[E], c *CNF) (*msp.MSP[E], error) {
@@ -179,11 +196,7 @@ func InducedMSP[E algebra.PrimeFieldElement[E]](f algebra.PrimeField[E], c *CNF)
 	// verification in protocols that independently reconstruct the MSP
 	// (e.g. Gennaro DKG over KW).
 	sortedMUS := slices.Clone(c.maximalUnqualifiedSets)
-	slices.SortFunc(sortedMUS, func(a, b ds.Set[ID]) int {
-		ba := bitset.NewImmutableBitSet(a.List()...)
-		bb := bitset.NewImmutableBitSet(b.List()...)
-		return cmp.Compare(uint64(ba), uint64(bb))
-	})
+	slices.SortFunc(sortedMUS, compareIDSets)
 
 	m := len(sortedMUS)
 	clauses := sliceutils.Map(sortedMUS, func(bi ds.Set[ID]) ds.Set[ID] {
